@@ -224,6 +224,10 @@ class StreamWriter(AbstractStreamWriter):
         self, status_line: str, headers: "CIMultiDict[str]"
     ) -> None:
         """Write headers to the stream."""
+        if self._headers_written:
+            # One writer carries one message: a second head would end up
+            # inside the body of the first one.
+            raise RuntimeError("Cannot write headers, the message head is sent already")
         if self._on_headers_sent is not None:
             await self._on_headers_sent(headers)
         # status + headers
